@@ -170,7 +170,34 @@ func sourceHash() string {
 	if b, err := os.ReadFile(filepath.Join(verifDir, "bin", "rewrite")); err == nil {
 		h.Write(b)
 	}
+	for _, rel := range patchFiles() {
+		b, _ := os.ReadFile(filepath.Join(patchDir(), rel))
+		fmt.Fprintf(h, "PATCH %s\x00%d\x00", rel, len(b))
+		h.Write(b)
+	}
 	return hex.EncodeToString(h.Sum(nil))[:24]
+}
+
+// VERIF_PATCH_DIR (development aid, never used by registered commands): a directory of replacement files,
+// laid out like /repo, that is overlaid on top of /repo for this run. Lets several mutation experiments
+// run in parallel without touching /repo.
+func patchDir() string { return os.Getenv("VERIF_PATCH_DIR") }
+
+func patchFiles() []string {
+	d := patchDir()
+	if d == "" {
+		return nil
+	}
+	var out []string
+	filepath.WalkDir(d, func(p string, e fs.DirEntry, err error) error {
+		if err == nil && !e.IsDir() && strings.HasSuffix(p, ".go") {
+			rel, _ := filepath.Rel(d, p)
+			out = append(out, rel)
+		}
+		return nil
+	})
+	sort.Strings(out)
+	return out
 }
 
 func ensureTools() {
@@ -207,7 +234,7 @@ func rewriteSources() (string, []string) {
 	if err != nil {
 		die(2, "cache dir: %v", err)
 	}
-	cmd := exec.Command(filepath.Join(verifDir, "bin", "rewrite"), "-repo", repoDir, "-out", tmp)
+	cmd := exec.Command(filepath.Join(verifDir, "bin", "rewrite"), "-repo", repoDir, "-out", tmp, "-patchdir", patchDir())
 	cmd.Env = goEnv()
 	var stdout, stderr bytes.Buffer
 	cmd.Stdout, cmd.Stderr = &stdout, &stderr
@@ -283,6 +310,9 @@ func writeOverlay(work string, engine string) string {
 		ov[filepath.Join(repoDir, rel)] = p
 		return nil
 	})
+	for _, rel := range patchFiles() {
+		ov[filepath.Join(repoDir, rel)] = filepath.Join(patchDir(), rel)
+	}
 	if engine == "S" {
 		dir, files := rewriteSources()
 		for _, f := range files {
@@ -416,6 +446,7 @@ func main() {
 	}
 	results := make([]*result, workers)
 	infra := []string{}
+	var crashed []violation
 	var mu sync.Mutex
 	var wg sync.WaitGroup
 	for w := 0; w < workers; w++ {
@@ -448,6 +479,14 @@ func main() {
 				tail := buf.String()
 				if len(tail) > 3000 {
 					tail = tail[len(tail)-3000:]
+				}
+				if jb, jerr := os.ReadFile(outFile + ".journal"); jerr == nil {
+					var v violation
+					if json.Unmarshal(jb, &v) == nil {
+						v.Msg += "\n" + tail
+						crashed = append(crashed, v)
+						return
+					}
 				}
 				infra = append(infra, fmt.Sprintf("worker %d produced no result (%v): %s", w, werr, tail))
 				return
@@ -530,6 +569,10 @@ func main() {
 			m.Rule, m.Assumptions, m.Explanation = r.Rule, r.Assumptions, r.Explanation
 		}
 	}
+	if len(crashed) > 0 {
+		m.Violations = append(m.Violations, crashed...)
+		m.Capped, m.CapReason = true, "a worker process died; its remaining cases were not run"
+	}
 	nStates := int64(len(states))
 	if nStates == 0 {
 		nStates = stateSum
@@ -567,7 +610,7 @@ func main() {
 			cmd.Env = append(os.Environ(), fmt.Sprintf("GOMAXPROCS=%d", def.MaxProcs))
 			cmd.Stdout, cmd.Stderr = io.Discard, io.Discard
 			if err := cmd.Run(); err != nil {
-				if ee, ok := err.(*exec.ExitError); ok && ee.ExitCode() == 1 {
+				if ee, ok := err.(*exec.ExitError); ok && (ee.ExitCode() == 1 || (v.Signature == "process-crash" && ee.ExitCode() != 0)) {
 					fails++
 				}
 			}
